@@ -169,6 +169,8 @@ def execute(case, ctx):
                 # every call gets its own fresh names mapping: nothing an earlier call bound or mutated may be visible
                 parser.eval(src, _names(with_big=op['kind'] == 'size_cap'), **kw)
         except BaseException as e:          # classification below decides what it means
+            if type(e).__name__ in ('RunTimeout', 'RunTooBig'):
+                raise
             exc = e
         kind = op['kind']
         ctx.event(step, op['op'], kind, type(exc).__name__ if exc else None)
@@ -257,6 +259,8 @@ def _repl_session(case, ctx):
         with contextlib.redirect_stdout(out):
             rc = repl_mod.repl()
     except BaseException as e:
+        if type(e).__name__ in ('RunTimeout', 'RunTooBig'):
+            raise
         exc = e
     finally:
         prompt_toolkit.PromptSession = real_session
